@@ -294,6 +294,7 @@ func (ex *Explorer) merge(in *Interp, r *PathResult) {
 	switch r.Status {
 	case "infeasible":
 		ex.Infeasible++
+		ex.Notes["infeasible:"+r.Reason]++
 	case "inconclusive":
 		if len(ex.Inconclusive) < 20 {
 			ex.Inconclusive = append(ex.Inconclusive, r.Reason)
